@@ -305,3 +305,171 @@ Proof.
   exists f1_p0, f1_p1, (PE 1 1 (1, 0) 0).
   split; [reflexivity|]. split; [vm_compute; reflexivity|]. vm_compute. discriminate.
 Qed.
+
+(* ------------------------------------------------------------------------------------------ *)
+(* switches_def: hamming of the switch encodings = minimum number of switch points             *)
+(* ------------------------------------------------------------------------------------------ *)
+
+(* flip entry j of a switch encoding *)
+Fixpoint toggle (j : nat) (s : hap) {struct s} : hap :=
+  match s with
+  | [] => []
+  | x :: t => match j with 0 => negb x :: t | S j' => x :: toggle j' t end
+  end.
+
+Lemma switch_at_nil : forall j, switch_at j [] = [].
+Proof. intro j. reflexivity. Qed.
+
+Lemma switch_at_0 : forall a t, switch_at 0 (a :: t) = a :: complement t.
+Proof. reflexivity. Qed.
+
+Lemma switch_at_S : forall j a t, switch_at (S j) (a :: t) = a :: switch_at j t.
+Proof. reflexivity. Qed.
+
+Lemma switch_at_head : forall j b t, exists r, switch_at j (b :: t) = b :: r.
+Proof. intros [|j] b t; eexists; reflexivity. Qed.
+
+Lemma switch_at_length : forall j p, length (switch_at j p) = length p.
+Proof.
+  intros j p. revert j. induction p as [|a p IH]; intros j; [reflexivity|].
+  destruct j as [|j].
+  - rewrite switch_at_0. cbn [length]. rewrite complement_length. reflexivity.
+  - rewrite switch_at_S. cbn [length]. rewrite IH. reflexivity.
+Qed.
+
+Lemma sw_switch_at : forall p j, switch_encoding (switch_at j p) = toggle j (switch_encoding p).
+Proof.
+  induction p as [|a t IH]; intros j; [rewrite switch_at_nil; reflexivity|].
+  destruct j as [|j].
+  - rewrite switch_at_0. destruct t as [|b t']; [reflexivity|].
+    change (complement (b :: t')) with (negb b :: complement t').
+    rewrite !sw_cons2. change (negb b :: complement t') with (complement (b :: t')).
+    rewrite sw_complement. cbn [toggle]. f_equal. destruct a, b; reflexivity.
+  - rewrite switch_at_S. destruct t as [|b t']; [reflexivity|].
+    destruct (switch_at_head j b t') as [r Hr].
+    rewrite sw_cons2. cbn [toggle]. rewrite <- IH, Hr, sw_cons2. reflexivity.
+Qed.
+
+Lemma apply_switches_length : forall ss p, length (apply_switches ss p) = length p.
+Proof.
+  induction ss as [|j ss IH]; intro p; [reflexivity|].
+  cbn [apply_switches fold_right]. rewrite switch_at_length. apply IH.
+Qed.
+
+Lemma sw_apply_switches : forall ss p,
+  switch_encoding (apply_switches ss p) = fold_right toggle (switch_encoding p) ss.
+Proof.
+  induction ss as [|j ss IH]; intro p; [reflexivity|].
+  cbn [apply_switches fold_right]. rewrite sw_switch_at. f_equal. apply IH.
+Qed.
+
+Lemma hamming_toggle : forall j s r, hamming (toggle j s) r <= S (hamming s r).
+Proof.
+  unfold hamming. induction j as [|j IH]; intros [|x s] [|y r]; cbn [toggle hamming_by]; try lia.
+  - destruct x, y; cbn; lia.
+  - specialize (IH s r). lia.
+Qed.
+
+Lemma hamming_toggles : forall ss s, hamming (fold_right toggle s ss) s <= length ss.
+Proof.
+  induction ss as [|j ss IH]; intro s; cbn [fold_right length].
+  - rewrite hamming_refl. lia.
+  - pose proof (hamming_toggle j (fold_right toggle s ss) s). specialize (IH s). lia.
+Qed.
+
+Lemma sw_eq_cases : forall p q, length p = length q ->
+  switch_encoding p = switch_encoding q -> p = q \/ p = complement q.
+Proof.
+  induction p as [|a t IH]; intros [|b u] Hl Hs; try discriminate; [left; reflexivity|].
+  destruct t as [|a' t']; destruct u as [|b' u']; try discriminate.
+  - destruct a, b; [left|right|right|left]; reflexivity.
+  - rewrite !sw_cons2 in Hs. inversion Hs as [[Hx Ht]].
+    cbn [length] in Hl.
+    destruct (IH (b' :: u') ltac:(cbn [length]; lia) Ht) as [E|E].
+    + injection E as Ea Et. subst a' t'. left. f_equal. clear - Hx. destruct a, b, b'; cbn in Hx; try reflexivity; discriminate.
+    + change (complement (b' :: u')) with (negb b' :: complement u') in E.
+      injection E as Ea Et. subst a' t'. right.
+      change (complement (b :: b' :: u')) with (negb b :: negb b' :: complement u').
+      f_equal. clear - Hx. destruct a, b, b'; cbn in Hx; try reflexivity; discriminate.
+Qed.
+
+Lemma transforms_iff : forall ss p0 p1,
+  transforms ss p0 p1 = true <-> (apply_switches ss p0 = p1 \/ apply_switches ss p0 = complement p1).
+Proof.
+  intros. unfold transforms. rewrite orb_true_iff, !hap_eqb_eq. tauto.
+Qed.
+
+(* every set of switch points that works has at least hamming(sw p0, sw p1) elements *)
+Lemma switches_lower_bound : forall ss p0 p1,
+  transforms ss p0 p1 = true -> hamming (switch_encoding p0) (switch_encoding p1) <= length ss.
+Proof.
+  intros ss p0 p1 H. apply transforms_iff in H.
+  assert (Hs : switch_encoding (apply_switches ss p0) = switch_encoding p1).
+  { destruct H as [H|H]; rewrite H; [reflexivity|apply sw_complement]. }
+  rewrite sw_apply_switches in Hs. rewrite <- Hs, hamming_sym. apply hamming_toggles.
+Qed.
+
+(* positions (from offset i) at which two switch encodings differ *)
+Fixpoint diffpos (s0 s1 : hap) (i : nat) : list nat :=
+  match s0, s1 with
+  | a :: t0, b :: t1 => (if xorb a b then [i] else []) ++ diffpos t0 t1 (S i)
+  | _, _ => []
+  end.
+
+Lemma diffpos_shift : forall s0 s1 i, diffpos s0 s1 (S i) = map S (diffpos s0 s1 i).
+Proof.
+  induction s0 as [|a t0 IH]; intros [|b t1] i; try reflexivity.
+  cbn [diffpos]. rewrite map_app, IH. destruct (xorb a b); reflexivity.
+Qed.
+
+Lemma diffpos_length : forall s0 s1 i, length (diffpos s0 s1 i) = hamming s0 s1.
+Proof.
+  unfold hamming. induction s0 as [|a t0 IH]; intros [|b t1] i; try reflexivity.
+  cbn [diffpos hamming_by]. rewrite app_length, IH. destruct (xorb a b); reflexivity.
+Qed.
+
+Lemma diffpos_bounds : forall s0 s1 i j, In j (diffpos s0 s1 i) -> i <= j < i + length s0.
+Proof.
+  induction s0 as [|a t0 IH]; intros [|b t1] i j Hj; try (cbn in Hj; contradiction).
+  cbn [diffpos length] in *. apply in_app_or in Hj. destruct Hj as [Hj|Hj].
+  - destruct (xorb a b); [destruct Hj as [Hj|[]]; lia | destruct Hj].
+  - apply IH in Hj. lia.
+Qed.
+
+Lemma diffpos_nodup : forall s0 s1 i, NoDup (diffpos s0 s1 i).
+Proof.
+  induction s0 as [|a t0 IH]; intros [|b t1] i; try constructor.
+  cbn [diffpos]. destruct (xorb a b); cbn [app]; [|apply IH].
+  constructor; [|apply IH]. intro Hin. apply diffpos_bounds in Hin. lia.
+Qed.
+
+Lemma fold_toggle_map_S : forall l a t,
+  fold_right toggle (a :: t) (map S l) = a :: fold_right toggle t l.
+Proof.
+  induction l as [|j l IH]; intros a t; [reflexivity|].
+  cbn [map fold_right]. rewrite IH. reflexivity.
+Qed.
+
+Lemma fold_toggle_diffpos : forall s0 s1, length s0 = length s1 ->
+  fold_right toggle s0 (diffpos s0 s1 0) = s1.
+Proof.
+  induction s0 as [|a t0 IH]; intros [|b t1] Hl; try discriminate; [reflexivity|].
+  cbn [diffpos]. rewrite diffpos_shift, fold_right_app, fold_toggle_map_S, IH by (cbn [length] in Hl; lia).
+  destruct a, b; reflexivity.
+Qed.
+
+(* a set of exactly hamming(sw p0, sw p1) distinct, in-range switch points that works *)
+Lemma switches_attained : forall p0 p1, length p0 = length p1 ->
+  exists ss, NoDup ss /\ (forall j, In j ss -> S j < length p0) /\
+             length ss = hamming (switch_encoding p0) (switch_encoding p1) /\
+             transforms ss p0 p1 = true.
+Proof.
+  intros p0 p1 Hl.
+  exists (diffpos (switch_encoding p0) (switch_encoding p1) 0).
+  split; [apply diffpos_nodup|]. split; [|split].
+  - intros j Hj. apply diffpos_bounds in Hj. rewrite sw_length in Hj. lia.
+  - apply diffpos_length.
+  - apply transforms_iff. apply sw_eq_cases.
+    + rewrite apply_switches_length. exact Hl.
+    + rewrite sw_apply_switches. apply fold_toggle_diffpos. rewrite !sw_length. lia.
+Qed.
